@@ -45,16 +45,21 @@ func (t Tree) String() string {
 
 // Write out the entire AST to a strings.Builder.
 func (t Tree) Write(s *strings.Builder) {
-	for i, n := range t.Nodes {
+	commentAbove := false // Whether the last thing written out was a comment
+	for _, n := range t.Nodes {
 		// A comment directly above a task is that task's docstring. If a comment sits above
 		// a task that has no docstring text, an empty comment ('#') separated the two in the source,
 		// it must be kept or the comment would become the task's docstring when read back
-		if task, ok := n.(Task); ok && i > 0 && task.Docstring.Text == "" {
-			if prev, ok := t.Nodes[i-1].(Comment); ok && prev.Text != "" {
-				s.WriteString("#\n")
-			}
+		if task, ok := n.(Task); ok && commentAbove && task.Docstring.Text == "" {
+			s.WriteString("#\n")
 		}
 		n.Write(s)
+		if comment, ok := n.(Comment); ok {
+			// Empty comments write nothing out
+			commentAbove = commentAbove || comment.Text != ""
+		} else {
+			commentAbove = false
+		}
 	}
 }
 
